@@ -8,7 +8,7 @@ From Coq Require Import String.
 From Coq Require Import List NArith Bool Arith Lia.
 From VF Require Import PyVal.Val Merge.Merge Yaml.Target Yaml.Cache Yaml.Validity Yaml.HistoryProofs.
 From VF Require Import Conc.YamlReal.
-From VF Require Import Conc.Machine Conc.Lin Conc.MachineProofs Conc.LinProofs Conc.Theorems Conc.Instances
+From VF Require Import Conc.Machine Conc.Lin Conc.MachineProofs Conc.LinProofs Conc.Theorems Conc.RealTime Conc.Instances
   Conc.InstanceProofs C19.Entry C19.Proofs.
 Import ListNotations.
 Local Open Scope nat_scope.
@@ -32,6 +32,44 @@ Theorem C19_lock_linearizable :
        search O W LS Call Res E begin prog ret env res_eqb fuel s0 (LinProofs.envs_of E sch) (results O W LS Call Res s) = true).
 Proof. exact lock_linearizable. Qed.
 Print Assumptions C19_lock_linearizable.
+
+(* ---- the real-time variant: every call carries the calls that had RETURNED when it was INVOKED; the
+   instrumented machine (RealTime.v) lets a call's first access check that they are complete and its last
+   access count the call as complete; a call placed before a predecessor yields None.  The instrumented
+   programs are again single critical sections, so for any base component, threads, calls, stamps and
+   schedule: the results of a complete run are accepted by the search over the instrumented machine, i.e.
+   by a sequential witness order in which no call precedes a call that had returned before its invocation
+   (the lock-acquisition order is such an order whenever the recorded invocation/response events bracket
+   the critical sections: then no result is None). ---- *)
+Theorem C19_lock_linearizable_real_time :
+  forall (O W LS Call Res E : Type) (begin : Call -> LS) (body : Call -> list (LS -> O -> W -> LS * O))
+         (ret : LS -> Res) (env : E -> W -> W) (res_eqb : Res -> Res -> bool),
+  (forall r, res_eqb r r = true) ->
+  forall ls0 o w (calls : list (list (rcall Call))) (sch : list (choice E)),
+    let s0 := init (robj O) W (rls LS) (rcall Call) (option Res) ls0 o w calls in
+    let s := run (robj O) W (rls LS) (rcall Call) (option Res) E (rbegin _ _ begin) (rprog _ _ _ _ body) (rret _ _ ret) env s0 sch in
+    (forall i j s', tstep _ _ _ _ _ (rbegin _ _ begin) (rprog _ _ _ _ body) (rret _ _ ret) s i = Some s' -> lock s = Some j -> i = j) /\
+    (all_done _ _ _ _ _ s = false -> exists i, tstep _ _ _ _ _ (rbegin _ _ begin) (rprog _ _ _ _ body) (rret _ _ ret) s i <> None) /\
+    (all_done _ _ _ _ _ s = true -> forall fuel, length sch < fuel ->
+       search (robj O) W (rls LS) (rcall Call) (option Res) E (rbegin _ _ begin) (rprog _ _ _ _ body) (rret _ _ ret) env
+              (opt_eqb res_eqb) fuel s0 (LinProofs.envs_of E sch) (results _ _ _ _ _ s) = true).
+Proof.
+  intros O W LS Call Res E begin body ret env res_eqb Hrefl ls0 o w calls sch.
+  exact (lock_linearizable (robj O) W (rls LS) (rcall Call) (option Res) E (rbegin _ _ begin) (rprog _ _ _ _ body)
+           (rret _ _ ret) env (opt_eqb res_eqb) (opt_eqb_refl res_eqb Hrefl) (rbody _ _ _ _ body) (rprog_cs _ _ _ _ body)
+           ls0 o w calls sch).
+Qed.
+Print Assumptions C19_lock_linearizable_real_time.
+
+(* what the instrumentation rejects: thread 1's get(1) was invoked after thread 0's set(1,1) had returned
+   and saw nothing -- sequentially consistent (get before set), but not in real-time order *)
+Example C19_real_time_is_stronger :
+  let calls := [[CSet 1 1]; [CGet 1]] in
+  let st : stamps := [[ [] ]; [ [(0, 0)] ]] in
+  let sch : list (choice unit) := [T 0; T 0; T 0; T 1; T 1; T 1] in
+  c_search 2 calls sch [[ [5] ]; [ [0] ]] = true /\ cr_search 2 calls st sch [[ [5] ]; [ [0] ]] = false /\
+  cr_search 2 calls st sch [[ [5] ]; [ [1; 1] ]] = true.
+Proof. vm_compute. repeat split; reflexivity. Qed.
 
 (* ---- instances: SynchronizedCache(LRUCache), TextFileSource, DataStore are single critical sections ---- *)
 Theorem C19_instances_are_critical_sections :
@@ -99,8 +137,8 @@ Theorem C19_yaml_concurrent_real : forall V C H yload mo,
   (forall k v st k' it, stored (cset k v st) k' it -> (k' = k /\ it = v) \/ stored st k' it) ->
   forall st0 (calls : list (list call)) (sch : list (choice unit)),
   HistoryProofs.cache_valid V C H yload mo S stored st0 -> Forall (Forall (faithful mo)) calls ->
-  let s := run S unit (rls) call (call * Val.res (dict * str)) unit r_begin (r_prog V C H yload S cget cset)
-               r_ret r_env (init S unit rls call (call * Val.res (dict * str)) (r_begin k0) st0 tt calls) sch in
+  let s := run S unit YamlReal.rls call (call * Val.res (dict * str)) unit r_begin (r_prog V C H yload S cget cset)
+               r_ret r_env (init S unit YamlReal.rls call (call * Val.res (dict * str)) (r_begin k0) st0 tt calls) sch in
   HistoryProofs.cache_valid V C H yload mo S stored (obj s) /\
   forall t, In t (threads s) -> Forall (fun r => snd r = spec_full_of_call V C H yload (fst r)) (Machine.res t).
 Proof. exact yaml_real_concurrent. Qed.
@@ -112,9 +150,9 @@ Theorem C19_yaml_concurrent_real_lru : forall V C H yload mo,
   (forall text v, yload text = Ok v -> wf v = true) ->
   (forall a b, H a = H b -> a = b) -> (forall s, ~ In BAR (H s)) -> (forall s, ~ In PLUS (H s)) -> (forall s, H s <> []) ->
   forall capacity (calls : list (list call)) (sch : list (choice unit)), Forall (Forall (faithful mo)) calls ->
-  let s := run (Cache.lru item) unit rls call (call * Val.res (dict * str)) unit r_begin
+  let s := run (Cache.lru item) unit YamlReal.rls call (call * Val.res (dict * str)) unit r_begin
                (r_prog V C H yload (Cache.lru item) (Cache.cache_get capacity) (Cache.lru_set capacity)) r_ret r_env
-               (init (Cache.lru item) unit rls call (call * Val.res (dict * str)) (r_begin k0) [] tt calls) sch in
+               (init (Cache.lru item) unit YamlReal.rls call (call * Val.res (dict * str)) (r_begin k0) [] tt calls) sch in
   forall t, In t (threads s) -> Forall (fun r => snd r = spec_full_of_call V C H yload (fst r)) (Machine.res t).
 Proof.
   intros V C H yload mo Ht Hr Hy Hi Hb Hp Hn capacity calls sch Hf s.
@@ -173,12 +211,13 @@ Proof. vm_compute. split; reflexivity. Qed.
 (* non-vacuity: concrete valid cases *)
 Example C19_nonvacuous_text :
   let c := Text [[(1, 10); (2, 20)]; [(1, 11)]] [] true [[TGet 1; TGet 2]; [TFind 20]; [TGetAt 1 1]]
+                [[ []; [] ]; [ [] ]; [ [(0, 1); (1, 0)] ]]
                 [T 0; T 1; T 0; Ev tt; T 0; T 0; T 1; T 1; T 1; T 1; T 0; T 0; T 0; T 0; T 2; T 2; T 2; T 2] in
   valid c /\ run_model c = [[ [1; 11]; [0] ]; [ [0] ]; [ [1; 11] ]].
-Proof. vm_compute. split; reflexivity. Qed.
+Proof. vm_compute. repeat split; reflexivity. Qed.
 
 Example C19_nonvacuous_cache :
-  let c := Cache 2 [[CSet 1 1; CGet 1]; [CSet 2 2; CSet 3 3; CLen]]
+  let c := Cache 2 [[CSet 1 1; CGet 1]; [CSet 2 2; CSet 3 3; CLen]] [[ []; [] ]; [ []; []; [(0, 1)] ]]
                  [T 0; T 1; T 0; T 0; T 1; T 1; T 1; T 1; T 1; T 1; T 0; T 0; T 0; T 1; T 1; T 1] in
   valid c /\ run_model c = [[ [5]; [0] ]; [ [5]; [5]; [3; 2] ]].
-Proof. vm_compute. split; reflexivity. Qed.
+Proof. vm_compute. repeat split; reflexivity. Qed.
